@@ -31,6 +31,7 @@ type c15Conn struct {
 }
 
 type c15Spec struct {
+	auth   bool
 	name   string
 	desc   string
 	conns  []c15Conn
@@ -56,6 +57,12 @@ func c15Specs() []c15Spec {
 		{name: "S-E", desc: "connection 1 inside COPY-in while connection 2 runs queries",
 			conns: []c15Conn{{"c1", [][]byte{st("u1"), pgproto.Query("1:copyt:drain"), pgproto.CopyData([]byte("row1\n")), pgproto.CopyData([]byte("row2\n")), pgproto.CopyDone()}},
 				{"c2", [][]byte{st("u2"), pgproto.Query("1:r,c=T1"), pgproto.Query("int4row")}}}},
+		{name: "S-F", desc: "connection 1 fails an extended message and skips until its Sync while connection 2 runs an extended batch and a simple query (the error / skip state must be per connection)",
+			conns: []c15Conn{{"c1", [][]byte{st("u1"), pgproto.Bind("", "nope", nil, nil, nil), pgproto.Parse("a", "2:p,c=Q1"), pgproto.Sync(), pgproto.Query("1:r,c=T1")}},
+				{"c2", append(append([][]byte{st("u2")}, ext("3:p,c=Q2", "v-two")...), pgproto.Query("1:r,c=T2"))}}},
+		{name: "S-G", desc: "2 connections authenticating with cleartext passwords as different users (startup packets and password messages interleave)", auth: true,
+			conns: []c15Conn{{"c1", [][]byte{pgproto.Startup("user", "alice", "database", "db-a"), pgproto.Password("pw-alice"), pgproto.Query("whoami")}},
+				{"c2", [][]byte{pgproto.Startup("user", "bob", "database", "db-b"), pgproto.Password("pw-bob"), pgproto.Query("whoami")}}}},
 	}
 }
 
@@ -147,7 +154,17 @@ func c15Run(spec c15Spec, only string, obs *c15Obs) {
 	if spec.global != nil {
 		global = maps.Clone(spec.global)
 	}
-	srv, err := wire.NewServer(parse, wire.Logger(harness.Quiet), wire.MessageBufferSize(1<<12), wire.GlobalParameters(global))
+	opts := []wire.OptionFn{wire.Logger(harness.Quiet), wire.MessageBufferSize(1 << 12), wire.GlobalParameters(global)}
+	if spec.auth {
+		opts = append(opts, wire.SessionAuthStrategy(wire.ClearTextPassword(func(ctx context.Context, db, user, pw string) (context.Context, bool, error) {
+			vsched.Yield("validator")
+			if r := multi.For(ctx); r != nil {
+				r.Add(script.Ev{Kind: "auth", Note: fmt.Sprintf("validate(db=%q user=%q pw=%q)", db, user, pw)})
+			}
+			return ctx, pw == "pw-"+user, nil
+		})))
+	}
+	srv, err := wire.NewServer(parse, opts...)
 	if err != nil {
 		panic(err)
 	}
@@ -254,6 +271,7 @@ func init() {
 			switch {
 			case tier != "thorough" && (sp.name == "S-D" || sp.name == "S-E"):
 				continue
+
 			case tier == "thorough" && (sp.name == "S-A" || sp.name == "S-C"):
 				bound = 3
 			}
@@ -316,7 +334,13 @@ func c15FreeRun(spec c15Spec) (ok bool) {
 	if spec.global != nil {
 		global = maps.Clone(spec.global)
 	}
-	srv, err := wire.NewServer(parse, wire.Logger(harness.Quiet), wire.MessageBufferSize(1<<12), wire.GlobalParameters(global))
+	opts := []wire.OptionFn{wire.Logger(harness.Quiet), wire.MessageBufferSize(1 << 12), wire.GlobalParameters(global)}
+	if spec.auth {
+		opts = append(opts, wire.SessionAuthStrategy(wire.ClearTextPassword(func(ctx context.Context, db, user, pw string) (context.Context, bool, error) {
+			return ctx, pw == "pw-"+user, nil
+		})))
+	}
+	srv, err := wire.NewServer(parse, opts...)
 	if err != nil {
 		return false
 	}
